@@ -156,7 +156,7 @@ func ExpressionPrecedence(expr ExpressionNode) uint8 {
 			return 50
 		}
 	case *MatchExpressionNode:
-		return 55
+		return 65
 	case *BinaryExpressionNode:
 		switch e.Op.Type {
 		case token.PIPE_OP:
